@@ -13,21 +13,21 @@ git checkout -q --detach "$head" || exit 2
 demo=$(ls $out/$x.demo.* 2>/dev/null | head -1)
 [ -z "$demo" ] && { echo "$id-$x: no demo"; exit 2; }
 # safety: demos run as root; refuse scripts that delete/move/cd unless confined to the out dir's scratch
-if grep -n -E "(^|[ =])(rm|rmdir|mv|cp_glob|cd|set_current_directory|temp_dir|exec|spawn)( |$)" "$demo" | grep -v "$out/scratch" | grep -q .; then
+if [ "${demo##*.}" != rs ] && [ -z "$SEED_REVIEWED" ] && grep -n -E "(^|[ =])(rm|rmdir|mv|cp_glob|cd|set_current_directory|temp_dir|exec|spawn)( |$)" "$demo" | grep -v "$out/scratch" | grep -q .; then
   echo "$id-$x: demo uses destructive commands outside $out/scratch - manual review needed"; exit 4
 fi
 run_demo() {
   case "$demo" in
-    *.ds) cargo build -q -p duckscript_cli --offline >>"$log" 2>&1 || return 99
+    *.ds) cargo build -q -p duckscript_cli --offline >>"$log" 2>&1 || return 251
           (cd "$out" && timeout 120 "$wt/target/debug/duck" "$demo") >>"$log" 2>&1; return $? ;;
-    *.sh) cargo build -q -p duckscript_cli --offline >>"$log" 2>&1 || return 99
+    *.sh) cargo build -q -p duckscript_cli --offline >>"$log" 2>&1 || return 251
           (cd "$out" && timeout 300 sh "$demo") >>"$log" 2>&1; return $? ;;
     *.rs) crate=duckscript; grep -q -E "duckscriptsdk|duckscript_sdk" "$out/$x.meta.json" 2>/dev/null && crate=duckscript_sdk
           pkg=duckscript; [ "$crate" = duckscript_sdk ] && pkg=duckscriptsdk
           mkdir -p "$wt/$crate/tests"; cp "$demo" "$wt/$crate/tests/seed_demo_$x.rs"
           (cd "$wt" && timeout 900 cargo test -q -p $pkg --offline --test seed_demo_$x) >>"$log" 2>&1; rc=$?
           rm -f "$wt/$crate/tests/seed_demo_$x.rs"; rmdir "$wt/$crate/tests" 2>/dev/null; return $rc ;;
-    *) return 98 ;;
+    *) return 250 ;;
   esac
 }
 run_demo; before=$?
@@ -41,7 +41,7 @@ results=$(grep -c "^test result" /tmp/seed/suite-$id-$x.txt)
 git diff > /tmp/seed/applied-$id-$x.diff
 git checkout -q -- . ; git clean -qfd -e target >/dev/null 2>&1
 echo "$id-$x: demo_without=$before demo_with=$after new_suite_failures=$newfail build_errors=$builderr result_lines=$results"
-if [ "$before" = 0 ] && [ "$after" != 0 ] && [ "$after" -lt 90 ] && [ "$newfail" = 0 ] && [ "$builderr" = 0 ] && [ "$results" -ge 3 ]; then
+if [ "$before" = 0 ] && [ "$after" != 0 ] && [ "$after" -lt 250 ] && [ "$newfail" = 0 ] && [ "$builderr" = 0 ] && [ "$results" -ge 3 ]; then
   d=/verif/seeded/$id-$x; mkdir -p "$d"
   cp /tmp/seed/applied-$id-$x.diff "$d/patch.diff"; cp "$demo" "$d/"
   python3 - "$id" "$x" "$out" "$d" "$head" "$before" "$after" <<'PY'
